@@ -3,5 +3,5 @@ CONSTANTS
   Fmts = {}
   EmitJson = FALSE
   Quick = TRUE
-INVARIANTS DecOK DecGoOK EncOK CarrierOK
+INVARIANTS DecOK DecGoOK EncOK CarrierOK NoAmplify
 CHECK_DEADLOCK FALSE
